@@ -562,3 +562,86 @@ def re_groups(pattern, s, how):
     if m is None:
         return None
     return tuple(m.group(i) for i in range(0, m.re.groups + 1))
+
+
+# ------------------------------------------------------------------------------------------ str.replace, written from its documentation
+def replace_starts(t, old, count):
+    """start offsets of the occurrences str.replace(old, new, count) replaces in t: left to right, not overlapping, at
+    most count when count >= 0; the empty pattern occurs before every character and at the end"""
+    starts = []
+    pos = 0
+    n = count
+    while n != 0:
+        if pos == 0:
+            i = t.find(old)
+        else:
+            i = t.find(old, pos)
+        if i < 0:
+            break
+        starts.append(i)
+        n -= 1
+        if len(old) == 0:
+            if i >= len(t):
+                break
+            pos = i + 1
+        else:
+            pos = i + len(old)
+    return starts
+
+
+def replace_expected(t, old, new, count):
+    out = ''
+    pos = 0
+    for i in replace_starts(t, old, count):
+        out = out + t[pos:i] + new
+        pos = i + len(old)
+    return out + t[pos:]
+
+
+def replace_source(t, old, newlen, count, k):
+    """where character k of the result of a replace comes from: (0, j, 0) = character j of the original,
+    (1, i, o) = character o of the replacement put in for the occurrence starting at i"""
+    pos = 0
+    out = 0
+    for i in replace_starts(t, old, count):
+        seg = i - pos
+        if k < out + seg:
+            return (0, pos + (k - out), 0)
+        out += seg
+        if k < out + newlen:
+            return (1, i, k - out)
+        out += newlen
+        pos = i + len(old)
+    return (0, pos + (k - out), 0)
+
+
+def splitlines_offsets(t):
+    """true offsets of the lines of t: line i starts where line i-1 (with its line break) ends"""
+    offs = []
+    pos = 0
+    for f in t.splitlines(True):
+        offs.append(pos)
+        pos += len(f)
+    return offs
+
+
+def ws_split_offsets(t, pieces, right):
+    """true offsets of the pieces of t.split(None, m) / t.rsplit(None, m): pieces are separated by whitespace runs"""
+    offs = []
+    if not right:
+        pos = 0
+        for p in pieces:
+            while pos < len(t) and t[pos].isspace():
+                pos += 1
+            offs.append(pos)
+            pos += len(p)
+        return offs
+    pos = len(t)
+    i = len(pieces) - 1
+    while i >= 0:
+        while pos > 0 and t[pos - 1].isspace():
+            pos -= 1
+        pos -= len(pieces[i])
+        offs.insert(0, pos)
+        i -= 1
+    return offs
